@@ -92,6 +92,10 @@ def check(prop, tier, replay=None):
                 violations.append(dict(sig=dict(which='in-sync-while-prometheus-runs-another-configuration'), replay=dict(property=prop, protocol=r),
                                        text='the push of an edit of %s was answered with an error (the reload of Prometheus failed); in the next cycle the shard reports the '
                                             'coordinator\'s hash and is given %s while its Prometheus still runs the old configuration' % (r['path'], r['reqs2'])))
+            if not r.get('prometheusRunsCoordinatorConfigAfter2', True):
+                violations.append(dict(sig=dict(which='in-sync-and-prometheus-reloaded-with-another-configuration'), replay=dict(property=prop, protocol=r),
+                                       text='the push of an edit of %s was answered with an error (the reload of Prometheus failed)%s; in the next cycle the shard is in sync and is given %s, '
+                                            'after which its Prometheus runs a configuration that is not the coordinator\'s' % (r['path'], ', the edit was taken back' if r.get('editTakenBack') else '', r['reqs2'])))
             if r['shardRunsCoordinatorConfig'] and (r['pushedAgain'] or not r['treatedInSync2']) and not r.get('reloadFailedAtPush'):
                 violations.append(dict(sig=dict(which='same-configuration-not-in-sync', extra=r['withExtraConfig']), replay=dict(property=prop, protocol=r),
                                        text='the shard holds exactly the coordinator\'s configuration (edit of %s%s) and is still treated as out of sync in the next cycle: %s' % (
